@@ -310,3 +310,59 @@ func ruleEqualityHelpers(w *World, c *Check, rule string) {
 		{Name: "every-element-found", Desc: "an element of one list missing from the other ⇒ false", Main: []GuardPat{TruePass(`φ\(false\|true\)`)}, RejectForm: true},
 	})
 }
+
+// ruleFalseHasError: a verifier returning (bool, error) whose callers report `err` when the bool is
+// false (`if ok, err := v(); !ok { return err }`) must never return (false, nil): that turns a
+// failed verification into success one level up. Every exit whose bool result is not known to be
+// true must carry an error that is known to be non-nil on that path (a constructed error, or a
+// value a dominating test found non-nil — a stale variable that a dominating test found nil is
+// reported).
+func ruleFalseHasError(w *World, c *Check, rule string, fnKeys ...string) {
+	for _, fk := range fnKeys {
+		fn := w.Func(fk)
+		if fn == nil {
+			c.Missing(rule, fk)
+			continue
+		}
+		fa := NewFuncAn(w, fn)
+		n := 0
+		for _, x := range fa.Exits() {
+			rs := RetResults(x.Ret)
+			if len(rs) < 2 {
+				continue
+			}
+			if v, known := fa.knownBool(rs[0], x.In); known && v {
+				continue
+			}
+			n++
+			ev := rs[len(rs)-1]
+			ok := fa.knownNonNilErr(ev, x.In)
+			if !ok {
+				// returning the callee's own (bool, error) pair unchanged keeps the callee's discipline
+				if ex, isEx := ev.(*ssa.Extract); isEx {
+					if call, isCall := ex.Tuple.(*ssa.Call); isCall {
+						if f := call.Call.StaticCallee(); f != nil && contains(fnKeys, FuncKey(f)) {
+							if ex0, isEx0 := rs[0].(*ssa.Extract); isEx0 && ex0.Tuple == ex.Tuple {
+								ok = true
+							}
+							// … or this path knows the callee said false: by the callee's own discipline
+							// (checked by this rule) its error is then non-nil
+							for _, ref := range *call.Referrers() {
+								if b0, isB := ref.(*ssa.Extract); isB && b0.Index == 0 {
+									if v, known := fa.knownBool(b0, x.In); known && !v {
+										ok = true
+									}
+								}
+							}
+						}
+					}
+				}
+			}
+			c.Decide(ok, rule, fk, "false-has-error@"+fa.exitLabel(x), w.Pos(InstrPos(x.Ret)), "a return that does not report success carries a non-nil error",
+				"returns ("+trunc(fa.R.R(rs[0]), 60)+", "+trunc(fa.R.R(ev), 100)+"): the error is not known to be non-nil here (a stale nil variable?) — callers that report err when !ok turn this failure into success")
+		}
+		if n == 0 {
+			c.Fail(rule, fk, "false-has-error", w.Pos(fn.Pos()), "the verifier has failing exits", "none found")
+		}
+	}
+}
